@@ -6,5 +6,13 @@ CONSTANTS
  SyncWrites = TRUE
  Spill = FALSE
  MaxHist = 14
+ Keys = {1,2,3,4}
+ NBuckets = 1
+ VCap = 2
+ MaxGC = 4
+ MaxCrash = 0
+ FlushWorkers = 1
+ GcSync = TRUE
+ GcExact = TRUE
 INVARIANT EmitHist
 CHECK_DEADLOCK FALSE
